@@ -1489,6 +1489,11 @@ ASSUMPTIONS = [
     'subprocess.call is the only way exactly_lib starts processes; it is replaced by a recording stub that starts nothing '
     '(exit code 0, no output), so HARD_ERROR / FAIL outcomes that depend on real program results are not produced',
     'the catalogue of exception classes is that of the running interpreters (3.11.7 / 3.12.1), checked by the self-test',
+    'K6 / K7 enter the program past its command-line parser (MainProgram.execute_test_case on the settings object that '
+    'argument_parsing.parse builds for `exactly FILE`); the self-test compares this entry with MainProgram.execute([FILE]) on the '
+    'quick-tier mutants (exit code, stdout, stderr, process starts, sandboxes)',
+    'tool work-around: CrossHair is kept from "short-circuiting" its own contract-carrying replacements of the builtins hash() and '
+    'repr() (harness/_C18_cli._chfix_builtin_contracts); the real functions are always executed - nothing is assumed',
 ]
 OUTSIDE = [
     'every UTF-8 text: the program is run on a finite catalogue of mutants of a grammar of valid test cases (K6, K7); '
